@@ -54,6 +54,9 @@ func runChild(dir, mode, order string, graph, full bool, flags []string, timeout
 
 func runChildW(dir, mode, order string, graph, full, wire bool, flags []string, timeout time.Duration) *childResult {
 	args := []string{"-child", mode, "-root", dir, "-order", order}
+	if mode == "build-always" {
+		args = []string{"-child", "build", "-always", "-root", dir, "-order", order}
+	}
 	if wire {
 		args = append(args, "-wire")
 	}
@@ -153,6 +156,7 @@ var (
 	nviolK = map[string]int{}
 	cfgBits = "101111"
 	decideRule = "fixed"
+	reasonRule = "safe"
 )
 
 func count(k string, n int) { outMu.Lock(); stats[k] += n; outMu.Unlock() }
@@ -497,7 +501,7 @@ func judge(p *Program, dir string, r *rng, o judgeOpts, only *Mutation) {
 	if o.build && only == nil || (o.build && only != nil && only.Kind == "sens") {
 		var pick []Mutation
 		for _, m := range p.Muts {
-			if m.Kind == "sens" && (m.Feature == "eqdistinct" || strings.Contains(m.What, "equal but distinct") || strings.Contains(m.What, "negative zero")) {
+			if m.Kind == "sens" && (m.Feature == "eqdistinct" || m.Feature == "targetsig" || strings.Contains(m.What, "equal but distinct") || strings.Contains(m.What, "negative zero")) {
 				pick = append(pick, m)
 			}
 		}
@@ -533,6 +537,17 @@ func judge(p *Program, dir string, r *rng, o judgeOpts, only *Mutation) {
 			b1 := runChild(dir, "build", "fwd", false, false, p.Flags, o.timeout)
 			os.WriteFile(filepath.Join(dir, m.File), []byte(orig), 0644)
 			count("child_runs", 1)
+			if b1.status != "ok" && b1.variant != "" {
+				// the build process died (or hung) after loading: the edit cannot even be built
+				mp := *p
+				mp.Files = map[string]string{}
+				for f, cc := range p.Files {
+					mp.Files[f] = cc
+				}
+				violation(b1.status+"-after-edit", m.Feature, "", "use of the fingerprint (property C01): the build after the edit ("+m.What+
+					") does not re-execute the target, the process dies: "+b1.detail, &mp, &m)
+				continue
+			}
 			if b1.status != "ok" || b1.loadErr != "" {
 				hist("rebuild_skipped", m.Feature)
 				continue
@@ -582,6 +597,7 @@ func main() {
 	graph := flag.Bool("graph", false, "")
 	full := flag.Bool("full", false, "")
 	wire := flag.Bool("wire", false, "")
+	always := flag.Bool("always", false, "child build mode: RunOptions{Always: true}")
 	cflags := flag.String("flags", "", "")
 	seed := flag.Uint64("seed", 1, "")
 	tier := flag.String("tier", "quick", "")
@@ -591,6 +607,8 @@ func main() {
 	cfg := flag.String("cfg", "101111", "model configuration bits (see lean/Driver/Env.lean)")
 	budget := flag.Int("budget", 0, "seconds for the program loop (0 = tier default)")
 	decideFlag := flag.String("decide", "fixed", "which diffEnv the tree has: old | d16 | fixed")
+	reasonRuleFlag := flag.String("reasonrule", "safe", "whether diffEnv handles 'no known part differs': old | safe")
+	reasonKeysFlag := flag.String("reasonkeys", "", "json list of keys: replay one case of the env.reasontext stream")
 	modeFlag := flag.String("mode", "", "reason: only the ground-truth judge of rebuild reasons (property C16)")
 	reasonReplayFlag := flag.String("reason-replay", "", "json {case} of the reason stream")
 	kindsFlag := flag.String("kinds", "", "comma separated unit kinds: judge one program made of exactly these units")
@@ -601,11 +619,12 @@ func main() {
 		if *cflags != "" {
 			fl = strings.Split(*cflags, "\x1f")
 		}
-		os.Exit(childMain(*child, *root, *order, *graph, *full, *wire, fl))
+		os.Exit(childMain(*child, *root, *order, *graph, *full, *wire, *always, fl))
 	}
 	selfExe, _ = os.Executable()
 	cfgBits = *cfg
 	decideRule = *decideFlag
+	reasonRule = *reasonRuleFlag
 	defer out.Flush()
 	if *scratch == "" {
 		*scratch, _ = os.MkdirTemp("", "verif-env-")
@@ -613,6 +632,11 @@ func main() {
 	}
 	timeout := 90 * time.Second
 
+	if *reasonKeysFlag != "" {
+		json.Unmarshal([]byte(*reasonKeysFlag), &reasonKeysOverride)
+		reasonStream(&rng{1}, "replay1")
+		return
+	}
 	if *modeFlag == "reason" || *reasonReplayFlag != "" {
 		if *reasonReplayFlag != "" {
 			reasonReplay(*reasonReplayFlag, *scratch)
